@@ -101,11 +101,19 @@ type session struct {
 	app  *fiber.App
 	srv  *fasthttp.Server
 	l    *core.Local
-	solo [][]byte // per letter: digest of what the accessors return when the letter is served alone on fresh pools
+	solo [][]byte // per letter: digest of what the accessors return when the letter is served alone on fresh pools (site letters: on the bare application)
+	// the bare application (sites.go), built when a history first needs it
+	fc      fiber.Config
+	bareApp *fiber.App
+	bareSrv *fasthttp.Server
+	solo2   [][]byte // per general letter: its solo digest on the bare application
 
 	// per history
-	hist     []int
-	split    int
+	bare      bool // the history runs on the bare application
+	open      bool // bare application: a request has reached a site and has not been closed yet
+	digestCur []byte
+	hist      []int
+	split     int
 	ord      int64
 	step     int
 	retained []*entry
@@ -156,6 +164,7 @@ func newSession(ci int, l *core.Local, full bool) *session {
 	default:
 		core.Fatal("unknown option set %q", s.cfg.Opts)
 	}
+	s.fc = fc
 	app := fiber.New(fc)
 	if s.cfg.Ctx == "custom" {
 		app.NewCtxFunc(func(app *fiber.App) fiber.CustomCtx {
@@ -170,15 +179,16 @@ func newSession(ci int, l *core.Local, full bool) *session {
 	_ = app.Handler() // startup processing
 	s.app, s.srv = app, app.Server()
 	s.solo = make([][]byte, len(alphabet))
+	s.solo2 = make([][]byte, nGeneral)
 	if full {
 		var letters []int
 		for li := range alphabet {
 			if s.cfg.flag() && li >= nGeneral+nShapes {
-				continue // single-flag option sets: the twins (same shape, other content) add nothing to the solo comparisons
+				continue // single-flag option sets: the twins (same shape, other content) add nothing to the solo comparisons; no bare application
 			}
 			letters = append(letters, li)
 		}
-		s.need(letters)
+		s.need(letters, false)
 	}
 	return s
 }
@@ -196,7 +206,7 @@ func (s *session) caseOf() map[string]any {
 		names[i] = alphabet[li].Name
 	}
 	return map[string]any{"config": s.cfg.String(), "config_index": s.ci, "history": names, "history_letters": append([]int(nil), s.hist...),
-		"requests_on_first_connection": s.split, "ord": s.ord, "sendfile_pass": *flagSendFile}
+		"requests_on_first_connection": s.split, "ord": s.ord, "sendfile_pass": *flagSendFile, "bare_app": s.bare}
 }
 
 // violate records a violation; the case is only built for the first occurrence of a signature
@@ -214,34 +224,57 @@ func (s *session) violate(sig string, build func() (what string, cs map[string]a
 // set and/or the shape class of the request whose values are concerned. Qualified signatures are
 // folded into the unqualified one at the end of the run when that was reported too (foldQualified):
 // what remains qualified is a defect that ONLY shows on that code path.
-func (s *session) qual(li int) string { return qualOf(s.cfg, li) }
+func (s *session) qual(e *entry, li int) string { return qualOf(s.cfg, li, e.Site, e.Form) }
 
-func qualOf(cf config, li int) string {
+// qualOrder: the qualifiers a signature may end in, in the order they are written.
+var qualOrder = []string{"opts", "site", "form", "shape"}
+
+func qualOf(cf config, li int, site, form string) string {
 	q := ""
 	if cf.flag() {
 		q += " opts=" + cf.Opts
 	}
+	q += qualSF(site, form)
 	if sh := alphabet[li].Shape; sh != "" {
 		q += " shape=" + strings.NewReplacer(",", "+", " ", ",", "=", ":").Replace(sh)
 	}
 	return q
 }
 
-// foldCandidates: the less qualified signatures a qualified one is folded into, most general first.
+// foldCandidates: the less qualified signatures a qualified one is folded into, most general first
+// (fewest qualifiers; among those with the same number, the one that drops the later qualifiers).
 func foldCandidates(sig string) []string {
-	base, shape, opts := sig, "", ""
-	if i := strings.Index(base, " shape="); i >= 0 {
-		base, shape = base[:i], base[i:]
+	toks := strings.Split(sig, " ")
+	n := len(toks)
+	isQual := func(t string) bool {
+		for _, q := range qualOrder {
+			if strings.HasPrefix(t, q+"=") {
+				return true
+			}
+		}
+		return false
 	}
-	if i := strings.Index(base, " opts="); i >= 0 {
-		base, opts = base[:i], base[i:]
+	for n > 0 && isQual(toks[n-1]) {
+		n--
+	}
+	base, quals := strings.Join(toks[:n], " "), toks[n:]
+	if len(quals) == 0 {
+		return nil
 	}
 	var out []string
-	if shape != "" || opts != "" {
-		out = append(out, base)
-	}
-	if shape != "" && opts != "" {
-		out = append(out, base+shape, base+opts)
+	for keep := 0; keep < len(quals); keep++ {
+		for mask := 0; mask < 1<<len(quals); mask++ {
+			c, cnt := base, 0
+			for i, q := range quals {
+				if mask&(1<<(len(quals)-1-i)) != 0 {
+					c += " " + q
+					cnt++
+				}
+			}
+			if cnt == keep {
+				out = append(out, c)
+			}
+		}
 	}
 	return out
 }
@@ -316,13 +349,15 @@ func (s *session) checkRetained(t int, phase string) {
 			if s.connOf(t) == s.connOf(e.step) {
 				conn = "same-conn"
 			}
-			if comp == "other" || comp == "response" {
+			if t == e.step {
+				after = "same-request" // bare application: a later site of the request the value was obtained in
+			} else if comp == "other" || comp == "response" {
 				after = "any-" + comp + "-" + conn
 			} else {
 				after = lenRel(alphabet[s.hist[t]].comp[comp], alphabet[s.hist[e.step]].comp[comp]) + "-" + comp + "-" + conn
 			}
 		}
-		s.violate("immutable-clobbered accessor="+sigAcc(e.Acc)+" after="+after+s.qual(s.hist[e.step]), func() (string, map[string]any, any, any) {
+		s.violate("immutable-clobbered accessor="+sigAcc(e.Acc)+" after="+after+s.qual(e, s.hist[e.step]), func() (string, map[string]any, any, any) {
 			cs := s.caseOf()
 			if t >= 0 {
 				cs["clobbered_by_request"] = fmt.Sprintf("#%d %s", t, alphabet[s.hist[t]].Name)
@@ -358,7 +393,7 @@ func (s *session) checkCur(cur []*entry, t int, group string) {
 		}
 		e.dead = true
 		s.unstable++
-		s.violate(fmt.Sprintf("handler-unstable accessor=%s by=%s immutable=%v", sigAcc(e.Acc), group, s.cfg.Immutable)+s.qual(s.hist[t]), func() (string, map[string]any, any, any) {
+		s.violate(fmt.Sprintf("handler-unstable accessor=%s by=%s immutable=%v", sigAcc(e.Acc), group, s.cfg.Immutable)+s.qual(e, s.hist[t]), func() (string, map[string]any, any, any) {
 			cs := s.caseOf()
 			cs["request"] = fmt.Sprintf("#%d %s", t, alphabet[s.hist[t]].Name)
 			cs["accessor"] = e.Acc
@@ -408,7 +443,15 @@ func (s *session) serve(from, to int) {
 		in = append(in, alphabet[li].raw...)
 	}
 	conn := fx.NewWireConn(in, nil)
-	_ = s.srv.ServeConn(conn)
+	if s.bare {
+		if s.bareSrv == nil {
+			s.buildBare(s.fc)
+		}
+		_ = s.bareSrv.ServeConn(conn)
+		s.leave() // a request fasthttp refused is closed here
+	} else {
+		_ = s.srv.ServeConn(conn)
+	}
 	if s.step != to {
 		core.Fatal("%s: history %v: %d of %d requests reached the handler; server wrote %q", s.cfg, s.hist, s.step, to, clip(string(conn.Output())))
 	}
@@ -417,13 +460,13 @@ func (s *session) serve(from, to int) {
 var tGC, tServe time.Duration
 
 // run executes one history from empty pools.
-func (s *session) run(hist []int, split int, ord int64) {
+func (s *session) run(hist []int, split int, ord int64, bare bool) {
 	t0 := time.Now()
 	runtime.GC()
 	runtime.GC()
 	t1 := time.Now()
 	tGC += t1.Sub(t0)
-	s.hist, s.split, s.ord, s.step = hist, split, ord, 0
+	s.hist, s.split, s.ord, s.step, s.bare, s.open = hist, split, ord, 0, bare, false
 	clear(s.retained) // what the previous history kept must not stay reachable (GC work, memory)
 	clear(s.digests)
 	s.retained, s.digests, s.fctxPtr, s.ctxPtr = s.retained[:0], s.digests[:0], s.fctxPtr[:0], s.ctxPtr[:0]
@@ -476,7 +519,15 @@ func (s *session) account() {
 	}
 	conns := 1 + b2i(s.split < len(s.hist))
 	first := "general"
-	if f := alphabet[s.hist[0]]; f.Shape != "" {
+	if s.bare {
+		first = "bare-app"
+		l.Add("bare_app_histories", 1)
+		for _, li := range s.hist {
+			if li >= siteBase {
+				l.Add("siteclass/"+alphabet[li].Shape, 1)
+			}
+		}
+	} else if f := alphabet[s.hist[0]]; f.Shape != "" {
 		first = "shape"
 		l.Add("shape_histories", 1)
 		l.Add("shape/"+f.Shape, 1)
@@ -488,6 +539,10 @@ func (s *session) account() {
 			}
 		}
 	}
+	if first == "general" && len(s.hist) == 2 && alphabet[s.hist[1]].Shape != "" && s.hist[1] < nGeneral+nShapes {
+		first = "general-then-shape"
+		l.Add("shape_second_histories", 1)
+	}
 	opts := s.cfg.Opts
 	if s.cfg.flag() {
 		opts = "single-flag"
@@ -497,13 +552,13 @@ func (s *session) account() {
 	// differential: position independence
 	for t, d := range s.digests {
 		lt := alphabet[s.hist[t]]
-		if bytes.Equal(d, s.solo[s.hist[t]]) {
+		if bytes.Equal(d, s.soloOf(s.hist[t])) {
 			continue
 		}
-		got, ref := decodeDigest(d), decodeDigest(s.solo[s.hist[t]])
+		got, ref := decodeDigest(d), decodeDigest(s.soloOf(s.hist[t]))
 		for _, id := range diffIDs(got, ref) {
-			acc := id[:strings.IndexByte(id, '|')]
-			s.violate(fmt.Sprintf("value-depends-on-history accessor=%s immutable=%v", sigAcc(acc), s.cfg.Immutable), func() (string, map[string]any, any, any) {
+			site, acc, form := parseID(id)
+			s.violate(fmt.Sprintf("value-depends-on-history accessor=%s immutable=%v", sigAcc(acc), s.cfg.Immutable)+qualSF(site, form), func() (string, map[string]any, any, any) {
 				cs := s.caseOf()
 				cs["request"] = fmt.Sprintf("#%d %s", t, lt.Name)
 				cs["value"] = id
@@ -540,18 +595,17 @@ func (l *letter) unspecified(id string) bool {
 func (s *session) encodeDigest(cur []*entry, lt *letter) []byte {
 	n := 0
 	for _, e := range cur {
-		n += len(e.Acc) + len(e.Key) + len(e.cp) + 8
+		n += len(e.Acc) + len(e.Form) + len(e.Site) + len(e.Key) + len(e.cp) + 12
 	}
 	b := make([]byte, 0, n)
 	for _, e := range cur {
-		if lt.unspecified(e.id()) {
+		if lt.unspecified(e.Acc + "|" + e.Key) {
 			s.l.Add("unspecified_skipped", 1) // String() prints a request counter; part order of a multipart Body()
 			continue
 		}
-		b = binary.AppendUvarint(b, uint64(len(e.Acc)+1+len(e.Key)))
-		b = append(b, e.Acc...)
-		b = append(b, '|')
-		b = append(b, e.Key...)
+		id := e.id()
+		b = binary.AppendUvarint(b, uint64(len(id)))
+		b = append(b, id...)
 		b = binary.AppendUvarint(b, uint64(len(e.cp)))
 		b = append(b, e.cp...)
 	}
@@ -589,17 +643,22 @@ func diffIDs(a, b map[string]string) []string {
 
 // need serves the given letters alone on fresh pools, unless done before, and
 // keeps what the accessors returned: the reference of the position-independence oracle.
-func (s *session) need(letters []int) {
+func (s *session) need(letters []int, bare bool) {
 	for _, li := range letters {
-		if s.solo[li] != nil {
+		slot := &s.solo[li]
+		onBare := li >= siteBase // the site letters only ever run on the bare application
+		if bare && !onBare {
+			slot, onBare = &s.solo2[li], true
+		}
+		if *slot != nil {
 			continue
 		}
 		t0 := time.Now()
-		s.run([]int{li}, 1, -1)
+		s.run([]int{li}, 1, -1, onBare)
 		if os.Getenv("C06_TIMING") == "solo" {
 			fmt.Fprintf(os.Stderr, "solo %-32s %8.2fms values=%d\n", alphabet[li].Name, float64(time.Since(t0).Microseconds())/1000, s.ncapt)
 		}
-		s.solo[li] = s.digests[0]
+		*slot = s.digests[0]
 		s.digests = nil
 		s.l.Add("solo_runs", 1)
 		s.l.Add("states", 1)
@@ -607,6 +666,14 @@ func (s *session) need(letters []int) {
 		s.l.Add("connection_close_transitions", 1)
 		s.checked = 0
 	}
+}
+
+// soloOf: the reference of the position-independence oracle for a letter of the current history.
+func (s *session) soloOf(li int) []byte {
+	if s.bare && li < siteBase {
+		return s.solo2[li]
+	}
+	return s.solo[li]
 }
 
 // baselineOracle: anchors and cross-configuration equality of the solo values. The option sets are
@@ -644,8 +711,8 @@ func baselineOracle(l *core.Local, worker, nw int) {
 				for _, id := range sortedKeys(lt.Want) {
 					l.Add("anchors_checked", 1)
 					if got := solo[id]; got != lt.Want[id] { // an empty value is not recorded
-						acc := id[:strings.IndexByte(id, '|')]
-						l.Violate(fmt.Sprintf("value-incorrect accessor=%s letter=%s", acc, lt.Name), "an accessor does not return the value the request carries",
+						site, acc, form := parseID(id)
+						l.Violate(fmt.Sprintf("value-incorrect accessor=%s letter=%s", acc, lt.Name)+qualSF(site, form), "an accessor does not return the value the request carries",
 							map[string]any{"config": cf.String(), "request": string(lt.raw), "value": id, "ord": -1}, clip(got), lt.Want[id])
 					}
 				}
@@ -677,8 +744,8 @@ func baselineOracle(l *core.Local, worker, nw int) {
 					if !in1 || !in2 {
 						continue // the Req() twins are not exercised with the custom context
 					}
-					acc := id[:strings.IndexByte(id, '|')]
-					l.Violate(fmt.Sprintf("value-differs-across-config accessor=%s between=%s", sigAcc(acc), what)+qualOf(cf, li), "the same request yields different values under two configurations that must not affect it",
+					site, acc, form := parseID(id)
+					l.Violate(fmt.Sprintf("value-differs-across-config accessor=%s between=%s", sigAcc(acc), what)+qualOf(cf, li, site, form), "the same request yields different values under two configurations that must not affect it",
 						map[string]any{"configs": []string{cf.String(), of.String()}, "letter": lt.Name, "value": id, "ord": -1}, clip(m2[id]), clip(m1[id]))
 				}
 			}
@@ -694,6 +761,7 @@ type item struct {
 	pos   int64 // position among the histories of this configuration
 	hist  []int
 	split int
+	bare  bool // runs on the bare application (sites.go)
 }
 
 // plan: what is enumerated for one configuration.
@@ -704,9 +772,17 @@ type item struct {
 //	              follower set, every placement. lvl[k-1] is the follower set of the histories with
 //	              k further requests: 0 = {twin}, 1 = {twin, pickedFollowers}, 2 = {twin, every
 //	              general letter}.
+//	second part   shapeSecond: a request-shape letter as the SECOND request, after every general letter,
+//	              every placement: the shape's branch runs on a context and on buffers another kind of
+//	              request has used (judged by the position-independence oracle and the retention oracles).
 type plan struct {
 	genK, shapeK int
 	lvl          [3]int
+	shapeSecond  bool
+	// bare application (sites.go): bareK = 0 none; >= 1: every site letter followed by one request out
+	// of {twin, every site letter, every general letter} and every general letter followed by every
+	// site letter; >= 2: every site letter followed by two requests out of bareFollowers(lvl bareLvl)
+	bareK, bareLvl int
 }
 
 // pickedFollowers: the general letters that are longer than the shape letters in every component,
@@ -741,6 +817,10 @@ func followers(si, lvl int) []int {
 //	          single-flag option sets: general 1; shapes 1 out of {twin, picked}.
 //	thorough  plain and rich: general 3; shapes 2 out of {twin, all general}.
 //	          single-flag option sets: general 2; shapes 2 out of {twin, picked}.
+//	plain (quick), plain and rich (thorough): a shape letter as second request after every general letter.
+//	bare application (capture sites, sites.go): quick: plain and rich/default-context: one further request;
+//	          plain/default-context: two out of the picked followers. thorough: two everywhere, out of
+//	          every site and general letter for plain/default-context.
 //
 // The SendFile pass (plain and rich only) is one general request shallower (never below 1) and
 // follows a shape letter by its twin only: fasthttp's file handler initialises package mime (12k
@@ -759,19 +839,32 @@ func planOf(r *core.Run, sendfile bool) func(ci int) plan {
 				p = plan{genK: 1, shapeK: 1, lvl: [3]int{1}}
 			}
 		default:
-			p = plan{genK: 3, shapeK: 2, lvl: [3]int{2, 2}}
+			p = plan{genK: 3, shapeK: 2, lvl: [3]int{2, 2}, shapeSecond: true}
 			if r.Quick() {
-				p = plan{genK: 2, shapeK: 2, lvl: [3]int{2, 1}}
+				p = plan{genK: 2, shapeK: 2, lvl: [3]int{2, 1}, shapeSecond: true}
 				if cf.Opts == "rich" {
 					p = plan{genK: 1, shapeK: 1, lvl: [3]int{1}}
 				}
 			}
 		}
+		// the bare application (capture sites): plain and rich option sets
+		switch {
+		case cf.flag():
+		case r.Quick() && cf.Opts == "plain" && cf.Ctx == "default":
+			p.bareK, p.bareLvl = 2, 0
+		case r.Quick() && (cf.Opts == "plain" || cf.Ctx == "default"):
+			p.bareK = 1
+		case r.Quick():
+		case cf.Opts == "plain" && cf.Ctx == "default":
+			p.bareK, p.bareLvl = 2, 1
+		default:
+			p.bareK, p.bareLvl = 2, 0
+		}
 		if sendfile {
 			if p.genK > 1 {
 				p.genK--
 			}
-			p.shapeK, p.lvl = 1, [3]int{0}
+			p.shapeK, p.lvl, p.shapeSecond, p.bareK = 1, [3]int{0}, false, 0
 		}
 		return p
 	}
@@ -801,11 +894,25 @@ func forEachHistory(pl func(ci int) plan, want func(ci int, before int64) bool, 
 					if hist == nil {
 						hist = mk()
 					}
-					fn(idx, item{ci, pos, hist, split})
+					fn(idx, item{ci, pos, hist, split, false})
 				}
 				idx++
 				pos++
 				cum += int64(k + 3)
+			}
+		}
+		// bare application: requests are captured at up to three sites (twice the weight)
+		emitBare := func(hist ...int) {
+			for split := 1; split <= len(hist); split++ {
+				if !closerOK(hist, split) {
+					continue
+				}
+				if want(ci, cum) {
+					fn(idx, item{ci, pos, hist, split, true})
+				}
+				idx++
+				pos++
+				cum += int64(2 * (len(hist) + 2))
 			}
 		}
 		n := nGeneral
@@ -838,6 +945,34 @@ func forEachHistory(pl func(ci int) plan, want func(ci int, before int64) bool, 
 						}
 						return hist
 					})
+				}
+			}
+		if p.shapeSecond {
+			for g := 0; g < nGeneral; g++ {
+				for si := nGeneral; si < nGeneral+nShapes; si++ {
+					emit(1, func() []int { return []int{g, si} })
+				}
+			}
+		}
+		if p.bareK >= 1 {
+			for si := siteBase; si < siteBase+nSites; si++ {
+				for _, f := range bareFollowers(si, 1) {
+					emitBare(si, f)
+				}
+			}
+			for g := 0; g < nGeneral; g++ {
+				for si := siteBase; si < siteBase+nSites; si++ {
+					emitBare(g, si)
+				}
+			}
+		}
+		if p.bareK >= 2 {
+			for si := siteBase; si < siteBase+nSites; si++ {
+				w := bareFollowers(si, p.bareLvl)
+				for _, a := range w {
+					for _, b := range w {
+						emitBare(si, a, b)
+					}
 				}
 			}
 		}
@@ -878,8 +1013,8 @@ func runWorker(r *core.Run) {
 			s = newSession(it.ci, l, false)
 			l.Add("sessions", 1)
 		}
-		s.need(it.hist)
-		s.run(it.hist, it.split, idx)
+		s.need(it.hist, it.bare)
+		s.run(it.hist, it.split, idx, it.bare)
 		s.account()
 		if it.pos%4099 == 0 {
 			l.Sample(map[string]any{"history": s.caseOf(), "values_captured": s.ncapt, "retained_values_clobbered": s.clobbers})
@@ -1006,6 +1141,7 @@ func runReplay(r *core.Run) {
 			Letters     []int `json:"history_letters"`
 			Split       int   `json:"requests_on_first_connection"`
 			SendFile    bool  `json:"sendfile_pass"`
+			Bare        bool  `json:"bare_app"`
 		}
 	}
 	if err := json.Unmarshal(b, &v); err != nil || len(v.Case.Letters) == 0 {
@@ -1016,8 +1152,8 @@ func runReplay(r *core.Run) {
 	*flagSendFile = v.Case.SendFile
 	l := core.NewLocal()
 	s := newSession(v.Case.ConfigIndex, l, false)
-	s.need(v.Case.Letters)
-	s.run(v.Case.Letters, v.Case.Split, 0)
+	s.need(v.Case.Letters, v.Case.Bare)
+	s.run(v.Case.Letters, v.Case.Split, 0, v.Case.Bare)
 	s.account()
 	hit := false
 	sigs := printViolations(l)
@@ -1105,7 +1241,7 @@ func main() {
 			}
 		}
 	}
-	var names, shapeNames []string
+	var names, shapeNames, siteNames []string
 	classes := map[string]bool{}
 	for i, l := range alphabet {
 		switch {
@@ -1114,6 +1250,20 @@ func main() {
 		case i < nGeneral+nShapes:
 			shapeNames = append(shapeNames, l.Name+" ["+l.Shape+"]")
 			classes[l.Shape] = true
+		case i >= siteBase && i < siteBase+nSites:
+			siteNames = append(siteNames, l.Name+" ["+l.Shape+"]")
+			if c["siteclass/"+l.Shape] == 0 && len(r.P.Caps) == 0 {
+				core.Fatal("vacuous exploration: no history of the bare application has a request of class %q", l.Shape)
+			}
+		}
+	}
+	// measured: every kind of capture site was reached
+	sitesReached := []string{}
+	for _, k := range []string{"middleware-before-next", "middleware-after-next", "first-of-two-handlers", "route-handler", "failing-handler", "error-handler"} {
+		if c["site/"+k] > 0 {
+			sitesReached = append(sitesReached, k)
+		} else if len(r.P.Caps) == 0 {
+			core.Fatal("vacuous exploration: capture site %q was never reached", k)
 		}
 	}
 	// measured: every shape class was the first request of at least one executed history
@@ -1126,17 +1276,18 @@ func main() {
 		}
 	}
 	if len(r.P.Caps) == 0 {
-		for _, k := range []string{"shape_overwritten_by_twin", "shape_overwritten_by_general_letter", "single_flag_config_histories"} {
+		for _, k := range []string{"shape_overwritten_by_twin", "shape_overwritten_by_general_letter", "single_flag_config_histories", "shape_second_histories"} {
 			if c[k] == 0 {
 				core.Fatal("vacuous exploration: mechanism counter %s is 0", k)
 			}
 		}
 	}
 	for k := range c { // the per-class counters are summarised, not listed
-		if strings.HasPrefix(k, "shape/") {
+		if strings.HasPrefix(k, "shape/") || strings.HasPrefix(k, "siteclass/") {
 			delete(c, k)
 		}
 	}
+	c["capture_site_kinds_reached"] = int64(len(sitesReached))
 	c["shape_classes"] = int64(len(classes))
 	c["shape_classes_exercised"] = int64(exercised)
 	cfgs := make([]string, len(configs))
@@ -1145,14 +1296,15 @@ func main() {
 		cfgs[i] = cf.String()
 		for _, sf := range []bool{false, true} {
 			p := planOf(r, sf)(i)
-			key := cf.Opts
+			key := cf.Opts + ", " + cf.Ctx + " context"
 			if cf.flag() {
 				key = "single-flag option sets"
 			}
 			if sf {
 				key += " (sendfile pass)"
 			}
-			plans[key] = map[string]any{"general_max_further_requests": p.genK, "shape_max_further_requests": p.shapeK, "shape_follower_set_per_depth": p.lvl[:p.shapeK]}
+			plans[key] = map[string]any{"general_max_further_requests": p.genK, "shape_max_further_requests": p.shapeK, "shape_follower_set_per_depth": p.lvl[:p.shapeK], "shape_letter_as_second_request_after_every_general_letter": p.shapeSecond,
+				"bare_app_max_further_requests": p.bareK, "bare_app_follower_level": p.bareLvl}
 		}
 	}
 	r.Finish(core.Evidence{
@@ -1163,7 +1315,8 @@ func main() {
 			"transitions":                   c["transitions"] + c["connection_close_transitions"],
 			"traces_validated_against_impl": c["traces"],
 			"state_definition":              "state = (configuration, requests served so far, which of them went over the first connection); one transition per request served and per connection closed; every state is the end of exactly one enumerated history, so states are counted once, at the end of the history that reaches them (plus the one-request states of the solo baselines)",
-			"bounds": map[string]any{"alphabet": names, "shape_letters": shapeNames, "plans": plans, "configurations": cfgs, "single_flag_option_sets": flagOpts,
+			"bounds": map[string]any{"alphabet": names, "shape_letters": shapeNames, "bare_app_site_letters": siteNames, "capture_sites": sitesReached,
+				"accessor_call_forms": []string{"plain", "default-given (value present)", "other-case-key (Params)"}, "plans": plans, "configurations": cfgs, "single_flag_option_sets": flagOpts,
 				"shape_follower_sets": map[string]any{"0": "twin (same shape, same lengths, other content)", "1": append([]string{"twin"}, pickedFollowers...), "2": "twin + every general letter"},
 				"placements":          "first k requests pipelined on one keep-alive connection, the others on a second connection, every k", "workers": nw},
 		},
